@@ -110,51 +110,42 @@ Lemma seq_to_list_ok : forall s (st : option nat) (e : option nat),
   let st' := match st with Some n => n | None => 0%nat end in
   let en := match e with Some n => n | None => length l end in
   (st' <= en)%nat -> (en <= length l)%nat ->
-  ((st' <? length l)%nat || (start_absent st && start_absent e && (length l =? 0)%nat)) = true ->
   seq_to_list s st e = LOk (slice st' en l).
 Proof.
-  intros s st e l st' en H1 H2 H3. unfold seq_to_list. fold l. fold st'.
-  apply orb_true_iff in H3 as [H3|H3].
-  - apply Nat.ltb_lt in H3.
-    assert (((st' =? 0) && (length l =? 0))%nat = false) as ->.
-    { destruct (Nat.eqb_spec (length l) 0); [lia|]. apply andb_false_r. }
-    cbn [andb]. destruct (Nat.leb_spec (length l) st'); [lia|].
+  intros s st e l st' en H1 H2. unfold seq_to_list. fold l. fold st'.
+  destruct (((st' =? 0) && (length l =? 0))%nat && match e with None => true | _ => false end) eqn:Sp.
+  - apply andb_true_iff in Sp as [Sp E]. apply andb_true_iff in Sp as [S0 L0].
+    apply Nat.eqb_eq in S0, L0. destruct e; [discriminate|]. cbn in en. subst en. rewrite S0.
+    destruct l; [reflexivity|discriminate].
+  - destruct (Nat.ltb_spec (length l) st'); [lia|].
     destruct e as [n|]; cbn in en; subst en.
     + destruct (Nat.ltb_spec (length l) n); [lia|]. destruct (Nat.ltb_spec n st'); [lia|reflexivity].
     + now rewrite slice_all.
-  - apply andb_true_iff in H3 as [H3 H5]. apply andb_true_iff in H3 as [H3 H4].
-    destruct st; try discriminate H3. destruct e; try discriminate H4. cbn in st', en. subst st' en.
-    apply Nat.eqb_eq in H5. rewrite H5. cbn. destruct l; [reflexivity|discriminate].
 Qed.
 
 Theorem replace_meets_spec : forall c, c_fn c = FReplace -> in_domain c = true -> m_call c = s_call c.
 Proof.
   intros c F Hd. assert (Hb := Hd). split_dom Hb D2 D1 D0 D. get_bounds Hb B1 B2.
   rewrite F in D. cbn in D.
-  apply andb_true_iff in D as [D G4]. apply andb_true_iff in D as [D G3]. apply andb_true_iff in D as [G1 G2].
-  unfold bounds2_ok in G1. apply andb_true_iff in G1 as [C1 C2]. apply Nat.leb_le in C1, C2.
+  unfold bounds2_ok in D. apply andb_true_iff in D as [C1 C2]. apply Nat.leb_le in C1, C2.
   unfold m_call, s_call, m_replace, s_replace. rewrite F.
-  rewrite (seq_to_list_ok (c_seq2 c) (c_start2 c) (c_end2 c) C1 C2 G4).
+  rewrite (seq_to_list_ok (c_seq2 c) (c_start2 c) (c_end2 c) C1 C2).
   fold (s_start c). fold (s_start2 c).
   change (match c_end2 c with Some n => n | None => length (elems (c_seq2 c)) end) with (s_end2 c (elems (c_seq2 c))).
   set (w2 := slice (s_start2 c) (s_end2 c (elems (c_seq2 c))) (elems (c_seq2 c))).
-  assert (forall l, elems (c_seq c) = l -> not_nil (c_seq c) = true ->
+  assert (forall l, elems (c_seq c) = l ->
     match replace_check (c_start c) (c_end c) (length l) with
     | None => RErr EError
     | Some e1 => let n := Nat.min (e1 - s_start c) (length w2) in RSeq (firstn (s_start c) l ++ firstn n w2 ++ skipn (s_start c + n) l)
     end = RSeq (firstn (s_start c) l ++ firstn (Nat.min (s_end c l - s_start c) (length w2)) w2 ++
                 skipn (s_start c + Nat.min (s_end c l - s_start c) (length w2)) l)) as Hgen.
-  { intros l Hl Hn. rewrite Hl, Hn in *. cbn [negb orb] in G2. rewrite orb_false_r in G2.
-    unfold replace_check. fold (s_start c).
-    apply orb_true_iff in G2 as [G2|G2].
-    - apply Nat.ltb_lt in G2.
-      assert (((length l =? 0) && (s_start c =? 0))%nat = false) as -> by (destruct (Nat.eqb_spec (length l) 0); [lia|reflexivity]).
-      cbn [andb]. destruct (Nat.leb_spec (length l) (s_start c)); [lia|].
+  { intros l Hl. rewrite Hl in *. unfold replace_check. fold (s_start c).
+    destruct (((length l =? 0) && (s_start c =? 0))%nat && match c_end c with None => true | _ => false end) eqn:Sp.
+    - apply andb_true_iff in Sp as [Sp E]. apply andb_true_iff in Sp as [L0 S0].
+      apply Nat.eqb_eq in S0, L0. unfold s_end in *. destruct (c_end c); [discriminate|]. rewrite L0. reflexivity.
+    - destruct (Nat.ltb_spec (length l) (s_start c)); [lia|].
       unfold s_end in *. destruct (c_end c) as [n|]; [|reflexivity].
-      apply Nat.ltb_lt in G3. destruct (Nat.leb_spec (length l) n); [lia|]. destruct (Nat.ltb_spec n (s_start c)); [lia|reflexivity].
-    - apply andb_true_iff in G2 as [G2 G5]. apply andb_true_iff in G2 as [Ga Gb].
-      unfold s_start, s_end in *. destruct (c_start c); try discriminate Ga. destruct (c_end c); try discriminate Gb.
-      apply Nat.eqb_eq in G5. rewrite G5. cbn. destruct l; [|discriminate]. reflexivity. }
+      destruct (Nat.ltb_spec (length l) n); [lia|]. destruct (Nat.ltb_spec n (s_start c)); [lia|reflexivity]. }
   destruct (c_seq c) eqn:S; cbn [elems] in *.
   - f_equal. assert (s_end c [] = 0%nat /\ s_start c = 0%nat) as [-> ->] by (cbn in B2; lia).
     cbn. reflexivity.
